@@ -162,7 +162,9 @@ class Case:
     def line(self, cid, mode):
         toks = []
         for o in self.ops:
-            if o[0] == "Q":
+            if o[0] == "W":
+                toks.append("W%d=%d*%d" % (o[1], o[2], o[3]))           # o[3] quiet updates along the walk generated inside the harness from seed o[2]
+            elif o[0] == "Q":
                 toks.append("Q%d=%s*%d" % (o[1], fq(o[2]), o[3]))       # o[3] quiet updates with the value o[2]
             else:
                 toks.append("%s%d=%s" % (o[0], o[1], fq(o[2])) if o[0] in ("u", "q", "v") else "%s%d" % (o[0], o[1]))
@@ -181,7 +183,7 @@ class Case:
         return r
     def to_json(self):
         return {"desc": d_sexpr(self.desc),
-                "ops": [("Q%d=%s*%d" % (o[1], fq(o[2]), o[3])) if o[0] == "Q" else (("%s%d=%s" % (o[0], o[1], fq(o[2]))) if o[0] in ("u", "q", "v") else "%s%d" % (o[0], o[1])) for o in self.ops][:20000],
+                "ops": [("W%d=%d*%d" % (o[1], o[2], o[3])) if o[0] == "W" else ("Q%d=%s*%d" % (o[1], fq(o[2]), o[3])) if o[0] == "Q" else (("%s%d=%s" % (o[0], o[1], fq(o[2]))) if o[0] in ("u", "q", "v") else "%s%d" % (o[0], o[1])) for o in self.ops][:20000],
                 "impl": ([b.js() for b in self.obs] if self.obs else None), "ctor_ok": self.ctor_ok, "meta": self.meta}
     @staticmethod
     def from_json(j):
@@ -189,7 +191,11 @@ class Case:
         d = parse_desc(toks)
         ops = []
         for t in j["ops"]:
-            if t[0] == "Q":
+            if t[0] == "W":
+                i, v = t[1:].split("=")
+                v, k_ = v.split("*")
+                ops.append(("W", int(i), int(v), int(k_)))
+            elif t[0] == "Q":
                 i, v = t[1:].split("=")
                 v, k_ = v.split("*")
                 ops.append(("Q", int(i), Fraction(v), int(k_)))
